@@ -18,16 +18,24 @@ R10.7  exit codes: the shell function rp_error which both scripts define ends
        as RP_RET, `$?` of its echo, or `return`) and is defined before the
        first guard line; the last statement of each script is `exit` with
        the variable which captured `$?` of the executable / launch command
-(R10.3 also: the named environment is sourced before the environment exports)
+R10.8  completeness: no filter on the value of an element on the way from
+       td['arguments'] / td['environment'] into the text; the environment
+       exports are control dependent on td['environment'] only
+R10.9  the per-rank `case` switch is generated whenever one entry of the
+       pre/post list is a per-rank dict (guard strength over lists of
+       str / dict entries)
+(R10.3 also: the named environment is sourced before the environment exports;
+ the form of the stdout / stderr file name is decided by a test on that name)
 """
 
 import ast
 import re
 
 from ..model import (walk, dotted, call_name, kwarg, unparse, short, UNKNOWN,
-                     root_name, AnalysisError, calls_in, stores_in_target)
+                     root_name, AnalysisError, calls_in, stores_in_target,
+                     names_in)
 from ..cfg import cfg_of
-from ..flow import Deps
+from ..flow import Deps, guards
 from .. import idioms as I
 from .c09 import factory_classes, reach, const_key, is_static
 
@@ -870,7 +878,92 @@ EXPORT_HISTORY = {
 #        rawj several raw elements joined into one string (quoting that string
 #             afterwards yields one word, not the elements)
 #        q    an element which went through the quoting function
+#        cut  elements may be missing: on the way a filter looked at the value
+#             of the element (comprehension `if`, filter(), a loop which adds
+#             the element in one arm of a test on it only)
 VIEWS = frozenset('CIVK')
+CUT = 'cut'
+ACCUM = ('append', 'extend', 'add', 'insert', 'appendleft', 'write')
+
+
+def none_test(e):
+    """`x is None` / `x is not None`: no filter on described data (the
+    description types have no None elements)"""
+    return isinstance(e, ast.Compare) and len(e.ops) == 1 and \
+        isinstance(e.ops[0], (ast.Is, ast.IsNot)) and \
+        isinstance(e.comparators[0], ast.Constant) and \
+        e.comparators[0].value is None
+
+
+def reads_element(test, names):
+    """the test looks at the value of (something computed from) the element"""
+    if isinstance(test, ast.BoolOp):
+        return any(reads_element(v, names) for v in test.values)
+    if isinstance(test, ast.UnaryOp) and isinstance(test.op, ast.Not):
+        return reads_element(test.operand, names)
+    if none_test(test):
+        return False
+    return bool(set(names_in(test)) & names)
+
+
+def accumulated(stmts):
+    """names which the statements add something to"""
+    out = set()
+    for s in stmts:
+        for n in walk(s):
+            if isinstance(n, ast.AugAssign):
+                r = root_name(n.target)
+                if r:
+                    out.add(r)
+            elif isinstance(n, ast.Call) and isinstance(n.func, ast.Attribute) \
+                    and n.func.attr in ACCUM:
+                r = root_name(n.func.value)
+                if r:
+                    out.add(r)
+            elif isinstance(n, ast.Assign):
+                for t in n.targets:
+                    if isinstance(t, ast.Subscript):
+                        r = root_name(t)
+                        if r:
+                            out.add(r)
+            elif isinstance(n, (ast.Yield, ast.YieldFrom)):
+                out.add('<yield>')
+    return out
+
+
+def jumps_on(body):
+    return bool(body) and isinstance(body[-1], (ast.Continue, ast.Break))
+
+
+def filtered_in_loop(loop):
+    """names to which the body of the for loop adds under a test on the loop
+    element: in one arm of an `if` only, or behind `if ..: continue`"""
+    names = set(stores_in_target(loop.target))
+    for _ in range(3):
+        for n in walk(loop):
+            if isinstance(n, ast.Assign) and set(names_in(n.value)) & names:
+                for t in n.targets:
+                    names |= set(stores_in_target(t))
+    out = set()
+
+    def block(stmts):
+        for i, st in enumerate(stmts):
+            if isinstance(st, ast.If) and reads_element(st.test, names):
+                a, b = accumulated(st.body), accumulated(st.orelse)
+                out.update(a ^ b)
+                if jumps_on(st.body) and not st.orelse:
+                    out.update(accumulated(stmts[i + 1:]))
+                elif jumps_on(st.orelse):
+                    out.update(accumulated(stmts[i + 1:]) - a)
+                block(st.body)
+                block(st.orelse)
+            elif isinstance(st, (ast.If, ast.With, ast.Try)):
+                for fld in ('body', 'orelse', 'finalbody'):
+                    block(getattr(st, fld, []) or [])
+                for h in getattr(st, 'handlers', []) or []:
+                    block(h.body)
+    block(loop.body)
+    return out
 STR_METHODS = {'strip', 'rstrip', 'lstrip', 'replace', 'lower', 'upper',
                'encode', 'decode', 'expandtabs', 'ljust', 'rjust', 'title'}
 KEEP_FUNCS = {'list', 'tuple', 'sorted', 'reversed', 'set', 'iter', 'dict',
@@ -914,6 +1007,9 @@ class Taint:
         for n in walk(f.node):
             if isinstance(n, ast.Return) and n.value is not None:
                 ret |= self.ev(f, n.value, env)
+            elif isinstance(n, (ast.Yield, ast.YieldFrom)) and \
+                    n.value is not None:
+                ret |= self.ev(f, n.value, env) | env.get('<yield>', set())
         self.stack.discard(k)
         self.memo[k] = frozenset(ret)
         self.last_env = env
@@ -933,7 +1029,14 @@ class Taint:
             elif isinstance(n, ast.AnnAssign) and n.value is not None:
                 self.bind(n.target, self.ev(f, n.value, env), env)
             elif isinstance(n, ast.For):
-                self.bind_iter(n.target, self.ev(f, n.iter, env), env)
+                it = self.ev(f, n.iter, env)
+                self.bind_iter(n.target, it, env)
+                if it:
+                    for name in filtered_in_loop(n):
+                        if env.get(name):
+                            env[name].add(CUT)
+                        elif name == '<yield>':
+                            env.setdefault('<yield>', set()).add(CUT)
             elif isinstance(n, ast.withitem) and n.optional_vars is not None:
                 self.bind(n.optional_vars, self.ev(f, n.context_expr, env),
                           env)
@@ -1022,11 +1125,18 @@ class Taint:
             return self.stringify(t)
         if isinstance(e, (ast.ListComp, ast.SetComp, ast.GeneratorExp,
                           ast.DictComp)):
+            cut = False
             for g in e.generators:
-                self.bind_iter(g.target, self.ev(f, g.iter, env), env)
+                it = self.ev(f, g.iter, env)
+                self.bind_iter(g.target, it, env)
+                names = set(stores_in_target(g.target))
+                if it and any(reads_element(t, names) for t in g.ifs):
+                    cut = True
             if isinstance(e, ast.DictComp):
-                return self.ev(f, e.key, env) | self.ev(f, e.value, env)
-            return self.ev(f, e.elt, env)
+                res = self.ev(f, e.key, env) | self.ev(f, e.value, env)
+            else:
+                res = self.ev(f, e.elt, env)
+            return res | {CUT} if cut and res else res
         if isinstance(e, ast.IfExp):
             return self.ev(f, e.body, env) | self.ev(f, e.orelse, env)
         if isinstance(e, ast.BoolOp):
@@ -1136,6 +1246,10 @@ class Taint:
             return self.stringify(args)
         if name in NUM_FUNCS:
             return set()
+        if name in ('filter', 'itertools.filterfalse', 'filterfalse',
+                    'itertools.takewhile', 'takewhile', 'itertools.dropwhile',
+                    'dropwhile') and args:
+            return args | {CUT}
         if name in KEEP_FUNCS:
             return args
         return args
@@ -1148,7 +1262,12 @@ def quoted_only(t):
     return 'q' in t and not (t & LEAK)
 
 
-def r10_2(prog, rep, classes, rid='R10.2', minimum=14):
+CUT_HISTORY = ("arguments=['-n', '', 'last'] (an empty string is a word of "
+               "its own: `grep -e ''`, `--prefix ''`): the executable is "
+               "started with ['-n', 'last']")
+
+
+def r10_2(prog, rep, classes, rid='R10.2', minimum=14, rid8=None):
     rep.rule(rid, "every element of td['arguments'] reaches the command of "
              'get_exec only through ru.sh_quote, and nowhere else does the '
              'executor put the arguments into a script', minimum=minimum)
@@ -1159,6 +1278,19 @@ def r10_2(prog, rep, classes, rid='R10.2', minimum=14):
         rep.saw(f)
         T = Taint(prog, K, 'arguments', 'list')
         t = T.run(f)
+        if rid8:
+            rep.check(CUT not in t, rid8, f,
+                      "%s.get_exec: every element of td['arguments'] is "
+                      'rendered (no filter on the value of an element)'
+                      % K.name, construct='arguments:filtered',
+                      message="%s.get_exec: on the way from td['arguments'] "
+                      'to the command a filter looks at the value of each '
+                      'element (a comprehension `if`, filter(), or a loop '
+                      'which adds the element in one arm of a test on it '
+                      'only): arguments for which the test fails are dropped, '
+                      'the executable does not get exactly the described '
+                      'argument list' % K.name, loc=f.loc(),
+                      history=CUT_HISTORY)
         if quoted_only(t):
             rep.ok(rid, f, "%s.get_exec: td['arguments'] reach the command "
                    'element-wise through the quoting function' % K.name,
@@ -1231,6 +1363,101 @@ def r10_4(prog, rep, rid='R10.4'):
                 "%s does not put the values of td['environment'] into the "
                 'script at all' % f.qual, f.loc(),
                 history="environment={'A': '1'}: $A is unset in the task")
+
+
+# ------------------------------------------------------------------------------
+# R10.8  completeness: everything which is described is rendered
+#
+# "exactly the described argument list, the described environment variables":
+# besides HOW an element is rendered (R10.2, R10.4) it must be rendered at all.
+#   * no filter on the value of an element on the way from td['arguments'] /
+#     td['environment'] to the text (Taint tag `cut`, reported from r10_2 for
+#     the arguments of every launcher class);
+#   * the `export K=V` lines of td['environment'] are emitted whenever
+#     td['environment'] is set: the tests they are control dependent on read
+#     td['environment'] only - not another field of the description (an
+#     `elif` behind the named_env block makes them its alternative).
+#
+def r10_8_rule(rep, rid='R10.8'):
+    rep.rule(rid, "every element of td['arguments'] and every entry of "
+             "td['environment'] is rendered: no filter on the value of an "
+             "element on its way into the text, and the environment exports "
+             "are control dependent on td['environment'] only (not on "
+             'named_env or another field of the description)', minimum=15)
+
+
+def r10_8(prog, rep, rid='R10.8'):
+    P = prog.cls(*POPEN)
+    f = prog.find_method(P, '_get_task_env')
+    if f is None:
+        raise AnalysisError('anchor _get_task_env not found')
+    rep.saw(f)
+    # ---- no filter on the entries
+    T = Taint(prog, P, 'environment', 'dict')
+    t = T.run(f)
+    rep.check(CUT not in t, rid, f, "every entry of td['environment'] is "
+              'rendered (no filter on key or value)',
+              construct='environment:filtered',
+              message="%s: a filter looks at each entry of "
+              "td['environment'] (comprehension `if`, filter(), a loop "
+              'which adds the line in one arm of a test on the entry '
+              'only): variables for which the test fails are not '
+              'exported' % f.qual, loc=f.loc(),
+              history="environment={'EMPTY': '', 'N': 0}: the task finds "
+              'the variables unset instead of empty / 0')
+    # ---- the export lines depend on td['environment'] only
+    Tx, its = script_items(prog, f)
+    L = Leaves(f.node, rename=task_rename(f))
+    g = cfg_of(f)
+    smap = I.stmt_node_map(g)
+    want = 'task/description/environment'
+    n = 0
+    for it, pa in its:
+        src = set()
+        for v in ([it.node] if it.kind in ('opaque', 'call') else it.vals):
+            src |= L.of(v)
+        if want not in src:
+            continue
+        node = smap.get(id(it.node))
+        if node is None:
+            raise AnalysisError('UNRECOGNISED-IDIOM %s: statement of the '
+                                'export piece `%s`' % (f.where,
+                                                       short(it.node, 40)))
+        n += 1
+        other, unknown = set(), set()
+        for tid, lab in guards(g, node.id):
+            for pth in L.of(g.nodes[tid].ast):
+                if pth == want or pth.startswith(want + '/'):
+                    continue
+                if pth.startswith('task/description/'):
+                    other.add((pth, short(g.nodes[tid].ast, 40), lab))
+                else:
+                    unknown.add((pth, short(g.nodes[tid].ast, 40)))
+        if unknown and not other:
+            raise AnalysisError('UNRECOGNISED-IDIOM %s: the export lines of '
+                                "td['environment'] are emitted under a test "
+                                'on %s' % (f.where, sorted(unknown)[:3]))
+        rep.check(not other, rid, f,
+                  "the `export` lines of td['environment'] are control "
+                  "dependent on td['environment'] only",
+                  construct='environment:guard',
+                  message="in %s the `export K=V` lines of td['environment'] "
+                  'are only emitted when the test `%s` is %s: that test reads '
+                  '%s, another field of the description - for tasks on the '
+                  'other side of it the described environment variables are '
+                  'not set at all' % (
+                      f.qual, sorted(other)[0][1] if other else '',
+                      'true' if other and sorted(other)[0][2] == 'T'
+                      else 'false',
+                      sorted(other)[0][0] if other else ''),
+                  loc=f.loc(it.node),
+                  history="named_env='ve1' together with environment="
+                  "{'FOO': 'bar'}: no `export FOO=..` line is written, the "
+                  'task runs with FOO unset (or with the value the '
+                  'activation script of the named environment left)')
+    if not n:
+        raise AnalysisError('UNRECOGNISED-IDIOM %s: no piece of the returned '
+                            "text is fed by td['environment']" % f.where)
 
 
 # ------------------------------------------------------------------------------
@@ -1347,8 +1574,8 @@ def r10_3(prog, rep, rid='R10.3'):
              'to the sandbox, launcher env, pre_launch, launch command with '
              'stdout/stderr redirect, post_launch; exit codes are taken right '
              'after the command; the per-rank case covers range(n_ranks)',
-             minimum=44)
-    # (49 today; a section which is dropped is reported missing and takes the
+             minimum=48)
+    # (58 today; a section which is dropped is reported missing and takes the
     # two order obligations with its neighbours with it - hence the slack)
     # ---- exec script
     f = prog.method(EXE[0], EXE[1], '_create_exec_script')
@@ -1733,6 +1960,8 @@ def std_names(prog, rep, rid):
     f = prog.method(POPEN[0], POPEN[1], '_handle_task')
     rep.saw(f)
     L = Leaves(f.node, rename=task_rename(f))
+    g = cfg_of(f)
+    smap = I.stmt_node_map(g)
     n = 0
     for a in walk(f.node):
         if not isinstance(a, ast.Assign):
@@ -1766,6 +1995,32 @@ def std_names(prog, rep, rid):
                       loc=f.loc(a),
                       history="stdout='o.txt', stderr='e.txt': the streams "
                       'are written to the wrong file')
+            # same-variable agreement: which form the name of one stream takes
+            # (relative to the sandbox / absolute) is decided by a test on
+            # that name, not on the name of the other stream
+            node = smap.get(id(a))
+            if node is None:
+                raise AnalysisError('UNRECOGNISED-IDIOM %s: statement `%s`'
+                                    % (f.where, short(a, 50)))
+            wrong = [g.nodes[tid].ast for tid, lab in guards(g, node.id)
+                     if other in L.of(g.nodes[tid].ast) and
+                     req not in L.of(g.nodes[tid].ast)]
+            rep.check(not wrong, rid, f,
+                      "task['%s'] is chosen by tests on the %s name only"
+                      % (k, which), construct='%s:%s:guard' % (k, which),
+                      message="task['%s'] (`%s`) is set under the test `%s`, "
+                      "which looks at the described %s name, not at the %s "
+                      "name: whether the %s file is taken relative to the "
+                      "sandbox is decided by the other stream's name"
+                      % (k, short(a, 60), short(wrong[0], 40) if wrong else '',
+                         'stderr' if which == 'stdout' else 'stdout', which,
+                         which), loc=f.loc(a),
+                      history="stdout='out.txt' (relative) with stderr="
+                      "'/tmp/x/err.txt' (absolute), or the other way round: "
+                      'the redirect target becomes `$RP_TASK_SANDBOX//tmp/x/'
+                      'err.txt` (no such directory: the ranks are not '
+                      'started) resp. the stream lands outside of the '
+                      'recorded file')
     if n < 4:
         raise AnalysisError('UNRECOGNISED-IDIOM %s: stdout/stderr file names '
                             'are not set here' % f.where)
@@ -2859,6 +3114,402 @@ def r10_6(prog, rep, rid='R10.6'):
 
 
 # ------------------------------------------------------------------------------
+# R10.9  the per-rank switch is taken whenever one entry is a per-rank dict
+#
+# The entries of td['pre_exec'] / td['post_exec'] are plain commands (str) or
+# per-rank dicts.  _get_prep_exec has two renderings: every entry as one
+# guarded command line, or the `case "$RP_RANK"` switch.  The first one prints
+# a dict entry into the script as if it were a command, so the switch must be
+# generated as soon as ANY entry is a dict.  Decided as guard strength over a
+# finite domain: the tests which the `case` header is control dependent on are
+# evaluated for every list of up to two entries over {str, dict}; for each
+# list with a dict all of them must pass.  Tests which do not look at the
+# entries (`sig not in td`) are no business of this rule.
+#
+class _Unk:
+    def __repr__(self):
+        return '?'
+
+
+UNKV = _Unk()
+SAMPLES = [(), ('S',), ('D',), ('S', 'D'), ('D', 'S'), ('S', 'S'), ('D', 'D')]
+TYPE_OF = {'dict': 'D', 'str': 'S', 'Mapping': 'D', 'MutableMapping': 'D',
+           'OrderedDict': 'D', 'list': 'O', 'tuple': 'O', 'set': 'O',
+           'int': 'O', 'float': 'O', 'bool': 'O', 'bytes': 'O',
+           'frozenset': 'O'}        # O: a type no entry has
+
+
+class GuardEval:
+    """value of a test of f for one sample of the entries list"""
+
+    def __init__(self, prog, f, M, sample):
+        self.prog, self.f, self.M = prog, f, M
+        self.sample = list(sample)
+        self.defs = M.defs
+
+    def is_domain(self, e, seen=()):
+        """e is the list of entries td[sig] (all of it, in order)"""
+        M = self.M
+        if isinstance(e, ast.Subscript) and not isinstance(e.slice, ast.Slice):
+            return not derived(M.ev(e.value)) and M.is_key(e.slice,
+                                                           frozenset())
+        if isinstance(e, ast.Call):
+            name = dotted(e.func)
+            if isinstance(e.func, ast.Attribute) and e.func.attr == 'get' \
+                    and e.args and not derived(M.ev(e.func.value)) and \
+                    M.is_key(e.args[0], frozenset()):
+                return True
+            if name in ('ru.as_list', 'as_list', 'list', 'tuple') and \
+                    len(e.args) == 1 and not e.keywords:
+                return self.is_domain(e.args[0], seen)
+            return False
+        if isinstance(e, ast.BoolOp) and isinstance(e.op, ast.Or):
+            return self.is_domain(e.values[0], seen) and all(
+                isinstance(v, (ast.List, ast.Tuple)) and not v.elts
+                for v in e.values[1:])
+        if isinstance(e, ast.Name) and e.id not in seen:
+            ds = self.defs.get(e.id, [])
+            return len(ds) == 1 and ds[0][0] == 'assign' and \
+                e.id not in self.M.params and \
+                self.is_domain(ds[0][1], seen + (e.id,))
+        return False
+
+    def depends(self, e, seen=()):
+        """e looks at the entries (directly or through local definitions)"""
+        for x in walk(e):
+            if isinstance(x, (ast.Name, ast.Subscript, ast.Call)) and \
+                    self.is_domain(x):
+                return True
+            if isinstance(x, (ast.Name, ast.Subscript)) and \
+                    derived(self.M.ev(x)):
+                return True
+            if isinstance(x, ast.Name) and x.id not in seen:
+                for kind, v, node, pos in self.defs.get(x.id, []):
+                    if kind == 'assign' and self.depends(v, seen + (x.id,)):
+                        return True
+                    # (a flag which a loop over the entries sets)
+                    if kind == 'assign' and any(
+                            self.is_domain(lp.iter)
+                            for lp in self.M.encl.get(id(node), ())
+                            if isinstance(lp, ast.For)):
+                        return True
+        return False
+
+    @staticmethod
+    def truth(v):
+        if v is UNKV or v in ('S', 'D'):
+            return UNKV
+        if isinstance(v, tuple) and v and v[0] == 'type':
+            return True
+        return bool(v)
+
+    def types(self, e):
+        """{'S','D'} named by the second argument of isinstance, or None"""
+        if isinstance(e, ast.Tuple):
+            out = set()
+            for x in e.elts:
+                t = self.types(x)
+                if t is None:
+                    return None
+                out |= t
+            return out
+        name = dotted(e)
+        if name:
+            last = name.split('.')[-1]
+            if last in TYPE_OF:
+                return {TYPE_OF[last]}
+        return None
+
+    def val(self, e, bind, seen=()):
+        if isinstance(e, ast.Constant):
+            return e.value if isinstance(e.value, (bool, int, str)) or \
+                e.value is None else UNKV
+        if isinstance(e, ast.Name):
+            if e.id in bind:
+                return bind[e.id]
+            if self.is_domain(e):
+                return list(self.sample)
+            if e.id in seen or e.id in self.M.params:
+                return UNKV
+            ds = self.defs.get(e.id, [])
+            if len(ds) == 1 and ds[0][0] == 'assign':
+                return self.val(ds[0][1], bind, seen + (e.id,))
+            if len(ds) == 2:
+                return self.flag(ds, bind, seen + (e.id,))
+            return UNKV
+        if self.is_domain(e):
+            return list(self.sample)
+        if isinstance(e, ast.Subscript):
+            i = self.prog.fold(self.f.module, e.slice, self.f.cls)
+            xs = self.val(e.value, bind, seen)
+            if isinstance(i, int) and not isinstance(i, bool) and \
+                    isinstance(xs, list) and -len(xs) <= i < len(xs):
+                return xs[i]
+            return UNKV
+        if isinstance(e, ast.UnaryOp) and isinstance(e.op, ast.Not):
+            t = self.truth(self.val(e.operand, bind, seen))
+            return UNKV if t is UNKV else not t
+        if isinstance(e, ast.BoolOp):
+            vals = [self.truth(self.val(v, bind, seen)) for v in e.values]
+            if isinstance(e.op, ast.And):
+                if any(v is False for v in vals):
+                    return False
+                return UNKV if any(v is UNKV for v in vals) else True
+            if any(v is True for v in vals):
+                return True
+            return UNKV if any(v is UNKV for v in vals) else False
+        if isinstance(e, (ast.ListComp, ast.GeneratorExp, ast.SetComp)):
+            if len(e.generators) != 1:
+                return UNKV
+            g = e.generators[0]
+            it = self.val(g.iter, bind, seen)
+            if not isinstance(it, list) or not isinstance(g.target, ast.Name):
+                return UNKV
+            out = []
+            for x in it:
+                b = dict(bind, **{g.target.id: x})
+                keep = [self.truth(self.val(t, b, seen)) for t in g.ifs]
+                if any(k is UNKV for k in keep):
+                    return UNKV
+                if all(keep):
+                    out.append(self.val(e.elt, b, seen))
+            return out
+        if isinstance(e, (ast.List, ast.Tuple)):
+            return [self.val(x, bind, seen) for x in e.elts]
+        if isinstance(e, ast.Compare) and len(e.ops) == 1:
+            a = self.val(e.left, bind, seen)
+            b = self.val(e.comparators[0], bind, seen)
+            op = e.ops[0]
+            if isinstance(a, tuple) and a and a[0] == 'type':
+                t = self.types(e.comparators[0])
+                if t is None or not isinstance(op, (ast.Eq, ast.NotEq, ast.Is,
+                                                    ast.IsNot, ast.In,
+                                                    ast.NotIn)):
+                    return UNKV
+                r = a[1] in t
+                return r if isinstance(op, (ast.Eq, ast.Is, ast.In)) else not r
+            if isinstance(op, (ast.In, ast.NotIn)) and isinstance(b, list) \
+                    and isinstance(a, (bool, int)) and \
+                    all(isinstance(x, (bool, int)) for x in b):
+                return (a in b) == isinstance(op, ast.In)
+            if a is UNKV or b is UNKV or a in ('S', 'D') or b in ('S', 'D') \
+                    or isinstance(a, list) or isinstance(b, list):
+                return UNKV
+            try:
+                if isinstance(op, ast.Eq):
+                    return a == b
+                if isinstance(op, ast.NotEq):
+                    return a != b
+                if isinstance(op, ast.Lt):
+                    return a < b
+                if isinstance(op, ast.LtE):
+                    return a <= b
+                if isinstance(op, ast.Gt):
+                    return a > b
+                if isinstance(op, ast.GtE):
+                    return a >= b
+            except TypeError:
+                return UNKV
+            return UNKV
+        if isinstance(e, ast.Call) and not e.keywords:
+            name = dotted(e.func)
+            args = e.args
+            if name in ('any', 'all') and len(args) == 1:
+                xs = self.val(args[0], bind, seen)
+                if not isinstance(xs, list):
+                    return UNKV
+                ts = [self.truth(x) for x in xs]
+                if name == 'any':
+                    if any(t is True for t in ts):
+                        return True
+                    return UNKV if any(t is UNKV for t in ts) else False
+                if any(t is False for t in ts):
+                    return False
+                return UNKV if any(t is UNKV for t in ts) else True
+            if name == 'isinstance' and len(args) == 2:
+                x = self.val(args[0], bind, seen)
+                t = self.types(args[1])
+                if x not in ('S', 'D') or t is None:
+                    return UNKV
+                return x in t
+            if name == 'type' and len(args) == 1:
+                x = self.val(args[0], bind, seen)
+                return ('type', x) if x in ('S', 'D') else UNKV
+            if name == 'len' and len(args) == 1:
+                x = self.val(args[0], bind, seen)
+                return len(x) if isinstance(x, list) else UNKV
+            if name == 'bool' and len(args) == 1:
+                return self.truth(self.val(args[0], bind, seen))
+            if name in ('sum',) and len(args) == 1:
+                xs = self.val(args[0], bind, seen)
+                if isinstance(xs, list) and all(isinstance(x, (bool, int))
+                                                for x in xs):
+                    return sum(xs)
+                return UNKV
+            if name in ('list', 'tuple', 'ru.as_list', 'as_list', 'sorted') \
+                    and len(args) == 1:
+                x = self.val(args[0], bind, seen)
+                return x if isinstance(x, list) else UNKV
+        if isinstance(e, ast.IfExp):
+            t = self.truth(self.val(e.test, bind, seen))
+            if t is UNKV:
+                return UNKV
+            return self.val(e.body if t else e.orelse, bind, seen)
+        return UNKV
+
+    def flag(self, ds, bind, seen):
+        """`flag = False` ... `for x in entries: if test(x): flag = True`:
+        the flag says whether some entry passes the test (or the mirror
+        image with True / False exchanged)"""
+        consts = [(d, d[1].value) for d in ds if d[0] == 'assign' and
+                  isinstance(d[1], ast.Constant) and
+                  isinstance(d[1].value, bool)]
+        if len(consts) != 2 or consts[0][1] == consts[1][1]:
+            return UNKV
+        loops = [n for n in walk(self.f.node) if isinstance(n, ast.For)
+                 and isinstance(n.target, ast.Name)]
+        inside = [(d, v, lp) for d, v in consts for lp in loops
+                  if any(x is d[2] for x in walk(lp))]
+        if len(inside) != 1:
+            return UNKV
+        (d, v, lp) = inside[0]
+        it = self.val(lp.iter, bind, seen)
+        if not isinstance(it, list):
+            return UNKV
+        # the tests between the loop head and the assignment
+
+        def path(stmts, acc):
+            for st in stmts:
+                if st is d[2]:
+                    return acc
+                if isinstance(st, ast.If):
+                    r = path(st.body, acc + [(st.test, True)])
+                    if r is None:
+                        r = path(st.orelse, acc + [(st.test, False)])
+                    if r is not None:
+                        return r
+                elif any(x is d[2] for x in walk(st)):
+                    return None if not isinstance(st, ast.Expr) else None
+            return None
+        tests = path(lp.body, [])
+        if tests is None:
+            return UNKV
+        some = False
+        for x in it:
+            b = dict(bind, **{lp.target.id: x})
+            ts = [self.truth(self.val(t, b, seen)) for t, pol in tests]
+            if any(t is UNKV for t in ts):
+                return UNKV
+            if all(t == pol for t, (_, pol) in zip(ts, tests)):
+                some = True
+        return v if some else (not v)
+
+    def holds(self, atom, pol, loops, outside):
+        """the edge `pol` of the test `atom` is taken (for a test on the
+        element of a loop over the entries which the guarded statement is not
+        part of: by some iteration).  True / False / UNKV"""
+        free = free_loops(atom, outside)
+        if not free:
+            t = self.truth(self.val(atom, {}))
+            return UNKV if t is UNKV else (t == pol)
+        if len(free) > 1:
+            return UNKV
+        it = self.val(free[0].iter, {})
+        if not isinstance(it, list):
+            return UNKV
+        res = []
+        for x in it:
+            t = self.truth(self.val(atom, {free[0].target.id: x}))
+            res.append(UNKV if t is UNKV else (t == pol))
+        if any(r is True for r in res):
+            return True
+        return UNKV if any(r is UNKV for r in res) else False
+
+
+def free_loops(atom, outside):
+    """the loops (not around the guarded statement) whose element the test
+    atom, which is part of their body, looks at"""
+    names = set(names_in(atom))
+    return [lp for lp in outside
+            if isinstance(lp.target, ast.Name) and lp.target.id in names and
+            any(x is atom for x in walk(lp))]
+
+
+def show_sample(sample, sig='pre_exec'):
+    return '%s=[%s]' % (sig, ', '.join("{'0': 'cmd'}" if x == 'D'
+                                       else "'cmd'" for x in sample))
+
+
+def r10_9(prog, rep, rid='R10.9'):
+    rep.rule(rid, 'the per-rank `case "$RP_RANK"` switch of _get_prep_exec is '
+             'generated whenever at least one entry of the pre/post list is a '
+             'per-rank dict (the tests the case header depends on, evaluated '
+             'over all lists of up to two str / dict entries)', minimum=4)
+    f = prog.method(EXE[0], EXE[1], '_get_prep_exec')
+    rep.saw(f)
+    T, its = script_items(prog, f)
+    heads = [it for it, pa in its if it.text and
+             re.match(r'\s*case\s', it.text)]
+    if not heads:
+        raise AnalysisError('UNRECOGNISED-IDIOM %s: no `case` header piece in '
+                            'the text' % f.where)
+    M = Mult(prog, f, sig_env(prog, f), memo={})
+    g = cfg_of(f)
+    smap = I.stmt_node_map(g)
+    loops = [n for n in walk(f.node) if isinstance(n, ast.For)]
+    for it in heads:
+        node = smap.get(id(it.node))
+        if node is None:
+            raise AnalysisError('UNRECOGNISED-IDIOM %s: statement of the '
+                                '`case` header' % f.where)
+        outside = [lp for lp in loops
+                   if not any(x is it.node for x in walk(lp))]
+        tests = []
+        for tid, lab in guards(g, node.id):
+            atom = g.nodes[tid].ast
+            ge = GuardEval(prog, f, M, ())
+            free = [lp for lp in free_loops(atom, outside)
+                    if ge.is_domain(lp.iter)]
+            if ge.depends(atom) or free:
+                tests.append((atom, lab == 'T'))
+        if not tests:
+            raise AnalysisError('UNRECOGNISED-IDIOM %s: the `case` header does '
+                                'not depend on a test on the entries'
+                                % f.where)
+        for sample in SAMPLES:
+            if 'D' not in sample:
+                continue
+            ge = GuardEval(prog, f, M, sample)
+            res = [(atom, pol, ge.holds(atom, pol, loops, outside))
+                   for atom, pol in tests]
+            unk = [a for a, p, r in res if r is UNKV]
+            bad = [(a, p) for a, p, r in res if r is False]
+            if unk and not bad:
+                raise AnalysisError(
+                    'UNRECOGNISED-IDIOM %s: cannot evaluate the test `%s` for '
+                    '%s' % (f.where, short(unk[0], 50), show_sample(sample)))
+            rep.check(not bad, rid, f,
+                      'entries %s: the per-rank switch is generated'
+                      % show_sample(sample, 'sig'),
+                      construct='switch:%s' % ''.join(sample),
+                      message='%s generates the per-rank `case` switch only '
+                      'if `%s` is %s; for %s that is not so although one '
+                      'entry is a per-rank dict: the other rendering prints '
+                      'every entry as a command line, so the dict itself '
+                      "lands in the script (`{'0': 'cmd'} || rp_error "
+                      'pre_exec`), bash fails on it and the executable never '
+                      'runs' % (f.qual,
+                                short(bad[0][0], 50) if bad else '',
+                                bad[0][1] if bad else '',
+                                show_sample(sample)),
+                      loc=f.loc(it.node),
+                      history='%s (every CUDA task with one plain pre_exec '
+                      'command is such a mix: _extend_pre_exec appends the '
+                      'per-rank CUDA_VISIBLE_DEVICES dict): the exec script '
+                      'fails in its pre_exec section' % show_sample(sample))
+
+
+# ------------------------------------------------------------------------------
 # R10.7  exit codes: the error path and the end of the scripts
 #
 # "the script's exit code is the executable's exit code unless a pre/post
@@ -3468,7 +4119,12 @@ def run(prog, rep, tier):
         'its body (modelled as shell statements) ends the script with a '
         'status which cannot be 0; each script ends with `exit $V`, V being '
         'set only by the `V=$?` which follows the executable / the launch '
-        'command.')
+        "command; no filter looks at the value of an element of "
+        "td['arguments'] / an entry of td['environment'] on its way into the "
+        "text, and the export lines depend on td['environment'] only; the "
+        'per-rank switch is generated for every list of entries which holds '
+        'a dict; relative / absolute form of the stdout (stderr) name is '
+        'decided by tests on that name.')
     rep.undecided = ('what bash does with the generated text: `$`, back-ticks '
         'and globs inside sh_quote\'d words (library code), the unquoted '
         'executable and pre/post commands (they are shell text by contract), '
@@ -3488,12 +4144,15 @@ def run(prog, rep, tier):
     ]
     classes = factory_classes(prog)
     r10_1(prog, rep)
-    r10_2(prog, rep, classes)
+    r10_8_rule(rep)
+    r10_2(prog, rep, classes, rid8='R10.8')
+    rep.attempt(r10_8, prog, rep)
     r10_3(prog, rep)
     r10_4(prog, rep)
     r10_5(prog, rep)
     rep.attempt(r10_6, prog, rep)
     rep.attempt(r10_7, prog, rep)
+    rep.attempt(r10_9, prog, rep)
     if tier == 'thorough':
         # sweep: every launcher class of the package (not only the factory
         # table) and every executor class: argument quoting in get_exec
@@ -3898,6 +4557,84 @@ SILENT += [
     dict(name='rank site: indent built by a second range() loop', edits=[
         (_E, "        ret += 'case \"$RP_RANK\" in\\n'\n", "        pad  = ''.join([' ' for _ in range(8)])\n        ret += 'case \"$RP_RANK\" in\\n'\n"),
         (_E, "            ret += '        ;;\\n'\n", "            ret += pad + ';;\\n'\n")]),
+]
+
+
+# ---- round 4 (C10-g1, g3, g4, g5): completeness, switch guard, agreement
+_J   = "            return ' '.join([ru.sh_quote(arg) for arg in args])"
+_ENV = "        if td['environment']:\n            ret += '\\n# task env settings\\n'\n            for key, val in td['environment'].items():\n                ret += 'export %s=\"%s\"\\n' % (key, val)\n"
+_SW  = "        switch_per_rank = any([isinstance(x, dict) for x in entries])\n"
+_R7  = edits_from_patch(_seeded('C10-r7')) or []
+
+MUTATIONS += [
+    dict(name='R10.8 empty arguments filtered out by the comprehension (seed C10-g1)', rules=('R10.8',), edits=[
+        (_B, _J, "            return ' '.join([ru.sh_quote(arg) for arg in args if arg])")]),
+    dict(name='R10.8 empty arguments skipped by continue in a loop', rules=('R10.8',), edits=[
+        (_B, _J, "            words = []\n            for arg in args:\n                if not arg:\n                    continue\n                words.append(ru.sh_quote(arg))\n            return ' '.join(words)")]),
+    dict(name='R10.8 arguments passed through filter(None, ..)', rules=('R10.8',), edits=[
+        (_B, _J, "            return ' '.join(ru.sh_quote(arg) for arg in filter(None, args))")]),
+    dict(name='R10.8 blank arguments dropped in get_exec', rules=('R10.8',), edits=[
+        (_B, "        task_args    = td['arguments']\n", "        task_args    = [a for a in td['arguments'] if a.strip()]\n")]),
+    dict(name='R10.8 environment variables with an empty value are not exported', rules=('R10.8',), edits=[
+        (_E, "                ret += 'export %s=\"%s\"\\n' % (key, val)\n", "                if val:\n                    ret += 'export %s=\"%s\"\\n' % (key, val)\n")]),
+    dict(name='R10.8 environment block is the elif of the named_env block (seed C10-g3)', rules=('R10.8',), edits=[
+        (_E, "        if td['environment']:\n            ret += '\\n# task env", "        elif td['environment']:\n            ret += '\\n# task env")]),
+    dict(name='R10.8 environment block only without named_env', rules=('R10.8',), edits=[
+        (_E, "        if td['environment']:\n            ret += '\\n# task env", "        if td['environment'] and not td['named_env']:\n            ret += '\\n# task env")]),
+    dict(name='R10.8 early return after the named_env block', rules=('R10.8',), edits=[
+        (_E, "        # also add any env vars requested in the task description\n", "        if td['named_env']:\n            return ret\n\n")]),
+    dict(name='R10.9 per-rank switch only if all entries are dicts (seed C10-g4)', rules=('R10.9',), edits=[
+        (_E, _SW, "        switch_per_rank = all([isinstance(x, dict) for x in entries])\n")]),
+    dict(name='R10.9 per-rank switch decided by the first entry', rules=('R10.9',), edits=[
+        (_E, _SW, "        switch_per_rank = isinstance(entries[0], dict)\n")]),
+    dict(name='R10.9 per-rank switch only if no entry is a string', rules=('R10.9',), edits=[
+        (_E, _SW, "        switch_per_rank = not any([isinstance(x, str) for x in entries])\n")]),
+    dict(name='R10.9 per-rank switch if the dict count equals the length', rules=('R10.9',), edits=[
+        (_E, _SW, "        switch_per_rank = len([x for x in entries if isinstance(x, dict)]) == len(entries)\n")]),
+    dict(name='R10.9 flag loop clears the switch on the first plain entry', rules=('R10.9',), edits=[
+        (_E, _SW, "        switch_per_rank = True\n        for x in entries:\n            if not isinstance(x, dict):\n                switch_per_rank = False\n")]),
+    dict(name='R10.3 stderr form decided by the stdout name (seed C10-g5)', rules=('R10.3',), edits=[
+        (_P, "        if stderr_file[0] != '/':", "        if stdout_file[0] != '/':")]),
+    dict(name='R10.3 stdout form decided by the stderr name', rules=('R10.3',), edits=[
+        (_P, "        if stdout_file[0] != '/':", "        if stderr_file[0] != '/':")]),
+]
+
+MUTATIONS += [] if not _R5 or not _R7 else [
+    dict(name='R10.9 C10-r5 form: switch unless all entries are dicts', rules=('R10.9',), edits=_R5 + [
+        (_E, "if not any(isinstance(entry, dict) for entry in entries):", "if not all(isinstance(entry, dict) for entry in entries):")]),
+    dict(name='R10.9 C10-r7 form (for / else): loop breaks on a plain entry', rules=('R10.9',), edits=_R7 + [
+        (_E, "            if isinstance(entry, dict):\n                break", "            if isinstance(entry, str):\n                break")]),
+    dict(name='R10.6 C10-r7 form: nested line helper gets the joined commands', rules=('R10.6',), edits=_R7 + [
+        (_E, "                for cmd in cmds:\n                    lines.append(_cmd_line(cmd, indent='        '))\n", "                if cmds:\n                    lines.append(_cmd_line('; '.join(cmds), indent='        '))\n")]),
+]
+
+SILENT += [
+    dict(name='arguments site: None test in the comprehension', edits=[
+        (_B, _J, "            return ' '.join([ru.sh_quote(arg) for arg in args if arg is not None])")]),
+    dict(name='arguments site: loop which renders the empty argument by hand in the other arm', edits=[
+        (_B, _J, "            words = []\n            for arg in args:\n                if arg == '':\n                    words.append(\"''\")\n                else:\n                    words.append(ru.sh_quote(arg))\n            return ' '.join(words)")]),
+    dict(name='environment site: early return when there is no environment', edits=[
+        (_E, _ENV, "        env = td['environment'] or {}\n        if not env:\n            return ret\n\n        ret += '\\n# task env settings\\n'\n        for key, val in env.items():\n            ret += 'export %s=\"%s\"\\n' % (key, val)\n")]),
+    dict(name='environment site: hoisted flag, lookup by key', edits=[
+        (_E, _ENV, "        has_env = bool(td['environment'])\n        if has_env:\n            ret += '\\n# task env settings\\n'\n            for key in td['environment']:\n                ret += 'export %s=\"%s\"\\n' % (key, td['environment'][key])\n")]),
+    dict(name='environment site: export lines as a comprehension over the sorted items', edits=[
+        (_E, _ENV, "        if td['environment']:\n            ret += '\\n# task env settings\\n'\n            ret += ''.join(['export %s=\"%s\"\\n' % (k, v)\n                            for k, v in sorted(td['environment'].items())])\n")]),
+    dict(name='switch site: not all entries are strings', edits=[
+        (_E, _SW, "        switch_per_rank = not all(isinstance(x, str) for x in entries)\n")]),
+    dict(name='switch site: truth of the list of dict entries', edits=[
+        (_E, _SW, "        switch_per_rank = bool([x for x in entries if isinstance(x, dict)])\n")]),
+    dict(name='switch site: count of dict entries through a local', edits=[
+        (_E, _SW, "        n_dicts = len([x for x in entries if isinstance(x, dict)])\n        switch_per_rank = n_dicts > 0\n")]),
+    dict(name='switch site: type(x) is dict', edits=[
+        (_E, _SW, "        switch_per_rank = any(type(x) is dict for x in entries)\n")]),
+    dict(name='switch site: flag set by a loop with break', edits=[
+        (_E, _SW, "        switch_per_rank = False\n        for x in entries:\n            if isinstance(x, dict):\n                switch_per_rank = True\n                break\n")]),
+    dict(name='std site: the absolute case first (tests swapped around)', edits=[
+        (_P, "        if stderr_file[0] != '/':\n            task['stderr_file']       = '%s/%s' % (sbox, stderr_file)\n            task['stderr_file_short'] = '$RP_TASK_SANDBOX/%s' % stderr_file\n        else:\n            task['stderr_file']       = stderr_file\n            task['stderr_file_short'] = stderr_file\n",
+             "        if stderr_file.startswith('/'):\n            task['stderr_file']       = stderr_file\n            task['stderr_file_short'] = stderr_file\n        else:\n            task['stderr_file']       = '%s/%s' % (sbox, stderr_file)\n            task['stderr_file_short'] = '$RP_TASK_SANDBOX/%s' % stderr_file\n")]),
+    dict(name='std site: hoisted tests for both streams', edits=[
+        (_P, "        if stdout_file[0] != '/':", "        out_rel = stdout_file[0] != '/'\n        err_rel = stderr_file[0] != '/'\n        if out_rel:"),
+        (_P, "        if stderr_file[0] != '/':", "        if err_rel:")]),
 ]
 
 SILENT += _corpus()
